@@ -684,7 +684,7 @@ pub fn run(ctx: &Ctx) -> i32 {
     });
     let ev = Evidence {
         level: "fault_enumeration",
-        rule: format!("Positions: one third explosive (constructed promotion races and seeded ones, kept when a depth-1 search exceeds {} nodes), one sixth middlegame positions with a single legal move, the rest seeded playout positions. Per position: forced expiry at every read 1..N/3, log-uniform expiry reads up to 20 000, expiry reads shortly before the end of each iteration of an uninterrupted probe (the last root moves' subtrees), and cost-model runs (per-node cost 1us..5ms, budget 1..30 000 nodes, optional stall jump) in which the deadline passes at a node rather than at a poll; depths 1, 2, 3 and 64; one sixth through `go movetime T [depth D]` (both token orders, D from 1 to 63) and the real uci_loop, where the limit armed on the timer must exist and not exceed T, or `go wtime W btime W` where it must exist; in both at most 4096 nodes may be entered between the go command and the start of the timer; a quarter of the sampled runs after one or two earlier depth 2-4 searches (clock-limited or not) on the same engine. Oracle: at most {} nodes entered after the virtual clock first shows start+limit (runs are cut at {} by the step cap), plus a time bound in stall-free runs. A case = a scenario in which the deadline passed before the search ended.", 20 * B, B, 64 * B),
+        rule: format!("Positions: one third explosive (constructed promotion races and seeded ones, kept when a depth-1 search exceeds {} nodes), one sixth middlegame positions with a single legal move, the rest seeded playout positions. Per position: forced expiry at every read 1..N/3, log-uniform expiry reads up to 20 000, expiry reads shortly before the end of each iteration of an uninterrupted probe (the last root moves' subtrees), and cost-model runs (per-node cost 1us..5ms, budget 1..30 000 nodes, optional stall jump) in which the deadline passes at a node rather than at a poll; depths 1, 2, 3 and 64; one sixth through `go movetime T [depth D]` (both token orders, D from 1 to 63) and the real uci_loop, where the limit armed on the timer must exist and not exceed T, or `go wtime W btime W` where it must exist; in both at most 4096 nodes may be entered between the go command and the start of the timer; a quarter of the sampled runs after one or two earlier depth 2-4 searches (clock-limited or not) on the same engine. Oracle: at most {} nodes entered after the virtual clock first shows start+limit (runs are cut at {} by the step cap), plus a time bound in stall-free runs. One position in six is a pawn endgame with eight long-budget runs (30 000-400 000 nodes: ten to fifteen iterations complete before the deadline); a third of the go lines through the loop carry nodes / mate / movestogo besides the clock; a timer armed again inside the same go, before its deadline, with a later deadline or none is a violation. A case = a scenario in which the deadline passed before the search ended.", 20 * B, B, 64 * B),
         extra: {
             let mut m = serde_json::Map::new();
             m.insert("bound_B_nodes".into(), json!(B));
